@@ -132,6 +132,13 @@ fn main() {
                 None => println!("{s}"),
             }
         }
+        "miribox" => {
+            // run under `cargo +nightly miri run`: any UB aborts the interpreter with an error
+            let acc = props::c07::miri_box();
+            let hooks: Vec<_> = acc.viols.values().map(|v| format!("{} :: {}", v.key, v.detail)).collect();
+            println!("MIRIBOX states={} transitions={} hook_violations={:?} buckets={:?}", acc.states, acc.transitions, hooks, acc.buckets);
+            std::process::exit(if hooks.is_empty() { 0 } else { 1 });
+        }
         "xdump" => {
             props::c20::xdump(&args[2]);
         }
